@@ -6,6 +6,7 @@ import (
 	"fmt"
 	"go/token"
 	"go/types"
+	"os"
 	"sort"
 	"strings"
 
@@ -70,6 +71,7 @@ type retSite struct {
 	results []*Term
 	state   *State
 	instr   *ssa.Return
+	locals  map[string]CVal
 }
 
 type Frame struct {
@@ -90,6 +92,7 @@ type Frame struct {
 	curBlock *ssa.BasicBlock
 	ghostPos map[*ssa.Range]string // state var names for string range iterators
 	stack    []*ssa.Function       // functions being inlined (recursion guard)
+	locals   map[*ssa.BasicBlock]map[string]CVal
 }
 
 type loopInfo struct {
@@ -231,7 +234,7 @@ func (fg *FnGen) safety(what string, guard, goal *Term, pos token.Pos) {
 	if Implies(guard, goal) == True {
 		return
 	}
-	if fg.ct != nil && fg.ct.Options["nosafety"] != "" {
+	if fg.ct != nil && fg.ct.Options["nosafety"] != "" && !strings.Contains(","+fg.ct.Options["safety"]+",", ","+what+",") {
 		// panic-freedom of this function is not part of the claim: run-time checks are assumed to pass
 		fg.g.useTrusted("run-time safety conditions (nil, bounds, type assertions) of " + fg.name + " are assumed, not checked (option nosafety)")
 		fg.assumeIf(guard, goal)
@@ -450,7 +453,11 @@ func (fg *FnGen) loopWrites(fr *Frame, li *loopInfo) (map[string]bool, bool) {
 	all := false
 	for b := range li.body {
 		for _, ins := range b.Instrs {
+			was := all
 			fg.instrWrites(fr.fn, ins, set, &all, 0)
+			if all && !was && os.Getenv("GOVC_TRACE") != "" {
+				fmt.Fprintf(os.Stderr, "loop %d of %s: unknown effects because of: %v\n", li.ordinal, fr.fn.Name(), ins)
+			}
 		}
 	}
 	return set, all
@@ -476,6 +483,13 @@ func (fg *FnGen) instrWrites(fn *ssa.Function, ins ssa.Instruction, set map[stri
 				n, _, _ := fg.memVar(sl.Elem())
 				set[n] = true
 				if _, ok := sl.Elem().Underlying().(*types.Struct); ok {
+					*all = true
+				}
+			} else if pa, ok := a.X.Type().Underlying().(*types.Pointer); ok {
+				if _, isArr := pa.Elem().Underlying().(*types.Array); isArr {
+					n, _ := fg.cellVar(pa.Elem())
+					set[n] = true
+				} else {
 					*all = true
 				}
 			} else {
@@ -566,6 +580,7 @@ func (fg *FnGen) runBlocks(fr *Frame, entry *State, entryReach *Term) {
 	order := rpo(fn)
 	for _, b := range order {
 		fr.curBlock = b
+		fr.enterBlockLocals(b)
 		var st *State
 		if b == fn.Blocks[0] {
 			fr.reach[b] = entryReach
